@@ -41,6 +41,14 @@ FRAME_TEMPLATES = [
     "{{\n  var blk = cb(1)\n  {{ var blk2 = cb(2) }}\n}}",
     "if (cb(1) == 1) {{ var in_if = cb(2) }} else {{ var in_else = cb(3) }}",
     "for (x : [cb(1), cb(2)]) {{ var in_loop = cb(x) }}",
+    # exits raised by the engine itself while it sets a call up: a parameter list / capture list that binds one name twice fails at call time
+    "def dupp{n}(p, p) {{ cb(1) }}\nvar dr{n} = 0\ntry {{ dupp{n}(cb(1), 2) }} catch (e) {{ dr{n} = cb(2) }}",
+    "var cap{n} = 1\nvar lamc{n} = fun[cap{n}](cap{n}) {{ cb(3) }}\nvar lcr{n} = 0\ntry {{ lamc{n}(cb(5)) }} catch (e) {{ lcr{n} = cb(4) }}",
+    "def dupq{n}(a, b, a) {{ cb(1) }}\ndef callsdup{n}() {{ var loc = cb(7); dupq{n}(1, 2, 3) }}\nvar dq{n} = 0\ntry {{ callsdup{n}() }} catch (e) {{ dq{n} = cb(8) }}",
+    # calls whose arguments go through a registered conversion (converted values are saved with the call's parameters)
+    "var tk{n} = take_tok(cb(3)) + take_tok(4)",
+    "var tt{n} = tok_then(cb(2), fun(x) {{ cb(x) + take_tok(x) }})",
+    "def viatok{n}(x) {{ take_tok(x) + cb(x) }}\nvar vt{n} = viatok{n}(5)\ntake_tok(6)",
 ]
 
 
